@@ -823,6 +823,9 @@ func grpcStatusFromError(err error) (*statusv1.Status, error) {
 		}
 		status.Details = details
 	}
+	// Error text often quotes the input that caused it, which needn't be valid
+	// UTF-8; a Protobuf string must be, or the status can't be serialized at all.
+	status.Message = strings.ToValidUTF8(status.Message, "\uFFFD")
 	return status, nil
 }
 
